@@ -222,6 +222,13 @@ pub fn run(tier: Tier) -> i32 {
                     ("r5".into(), s(vec![fk_args("s0", vec![("x", FkArg::Bool(true))])])),
                     ("r6".into(), s(vec![fk_args("s1", vec![("x", FkArg::Int(-5)), ("y", FkArg::Float("0.5".into()))])])),
                     ("r7".into(), s(vec![text(&format!("[{l}.r7] ")), fk("neg"), text(" mid "), fk("f")])),
+                    // white space right after a reference - with and without an argument object - at the end of the
+                    // value, before more text, and at both ends
+                    ("w1".into(), s(vec![text(&format!("[{l}.w1] ")), fk_args("s0", vec![("x", FkArg::UInt(5))]), text(" ")])),
+                    ("w2".into(), s(vec![text(&format!("[{l}.w2] ")), fk_args("s0", vec![("x", FkArg::Str(vec![text("v")]))]), text("\n")])),
+                    ("w3".into(), s(vec![text(" "), fk("n"), text("  ")])),
+                    ("w4".into(), s(vec![fk_args("s0", vec![("x", FkArg::UInt(5))]), text(" \t "), fk_args("s0", vec![("x", FkArg::UInt(6))]), text("  ")])),
+                    ("w5".into(), s(vec![fk_args("s0", vec![("x", FkArg::UInt(5))]), text(&format!("  [{l}.w5] more  "))])),
                 ],
             );
         }
